@@ -23,6 +23,8 @@ struct State {
     fail_budget: u32,
     events: Vec<Event>,
     injected: u32,
+    /// every decision point met: (choice taken, number of alternatives) - for systematic DFS
+    decisions: Vec<(u8, u8)>,
 }
 
 pub struct Sched {
@@ -37,24 +39,29 @@ thread_local! {
 impl Sched {
     pub fn new(nthreads: usize, schedule: Vec<u8>, fail_budget: u32) -> Arc<Sched> {
         Arc::new(Sched {
-            st: Mutex::new(State { turn: 0, done: vec![false; nthreads], schedule, pos: 0, fail_budget, events: Vec::with_capacity(256), injected: 0 }),
+            st: Mutex::new(State { turn: 0, done: vec![false; nthreads], schedule, pos: 0, fail_budget, events: Vec::with_capacity(256), injected: 0, decisions: Vec::with_capacity(256) }),
             cv: Condvar::new(),
         })
     }
 
-    fn next_choice(st: &mut State) -> u8 {
-        let c = st.schedule.get(st.pos).copied().unwrap_or(0);
+    /// a decision among `n` alternatives: taken from the schedule vector (0 beyond its end)
+    fn next_choice(st: &mut State, n: usize) -> usize {
+        let c = st.schedule.get(st.pos).copied().unwrap_or(0) as usize % n;
         st.pos += 1;
+        st.decisions.push((c as u8, n as u8));
         c
     }
 
     fn pick_next(st: &mut State) {
         let runnable: Vec<usize> = (0..st.done.len()).filter(|i| !st.done[*i]).collect();
-        if runnable.is_empty() {
-            return;
+        match runnable.len() {
+            0 => {}
+            1 => st.turn = runnable[0],
+            n => {
+                let c = Self::next_choice(st, n);
+                st.turn = runnable[c];
+            }
         }
-        let c = Self::next_choice(st) as usize;
-        st.turn = runnable[c % runnable.len()];
     }
 
     /// called by a scenario thread before it starts
@@ -80,6 +87,10 @@ impl Sched {
         let st = self.st.lock().unwrap();
         (st.events.clone(), st.injected)
     }
+
+    pub fn decisions(&self) -> Vec<(u8, u8)> {
+        self.st.lock().unwrap().decisions.clone()
+    }
 }
 
 impl Hook for Sched {
@@ -96,8 +107,8 @@ impl Hook for Sched {
             st = self.cv.wait(st).unwrap();
         }
         if op == Op::CasWeak && st.fail_budget > 0 {
-            let c = Self::next_choice(&mut st);
-            if c % 2 == 1 {
+            let c = Self::next_choice(&mut st, 2);
+            if c == 1 {
                 st.fail_budget -= 1;
                 st.injected += 1;
                 return true;
